@@ -18,6 +18,11 @@ def cfg : Cfg :=
     deletedCut := Gen.C12.deletedCut
     nameMinLen := Gen.C12.nameMinLen
     nameTestOnBytes := Gen.C12.nameTestOnBytes
-    textRaw := Gen.C12.openTextNoNewlineTranslation }
+    textRaw := Gen.C12.openTextNoNewlineTranslation
+    -- the `except` clauses, read as Python reads them (first matching clause, subclass-aware)
+    nameSwallows := handledWith Gen.C12.nameCmdlineClauses "pass"
+    exeGuessOn := handledWith Gen.C12.exeNativeClauses "guess"
+    exeGuessSwallows := handledWith Gen.C12.exeGuessClauses "pass"
+    guessReraises := allExc.filter (catches Gen.C12.guessReraiseClass) }
 
 end Psutil.C12
